@@ -79,13 +79,17 @@ func coqArg(t *progen.Type, v uint64) string {
 
 type caseT struct {
 	name   string
+	dir    string // package directory relative to the module root (g/p000, c/<id>)
 	pkg    *progen.Package
 	src    string
 	native map[int]string
 	model  map[int]string
 	coqErr string
+	defs   map[string]bool // Definitions present in the emitted file
+	decls  []string        // names of the top-level Go declarations (catalogue)
 }
 
+var defRe = regexp.MustCompile(`(?m)^Definition ([A-Za-z0-9_']+)`)
 var evalRe = regexp.MustCompile(`(?s)= \((\d+)%nat, "([^"]*)"\)`)
 
 func main() {
@@ -94,7 +98,8 @@ func main() {
 	goose := flag.String("goose", "", "goose binary built from /repo")
 	repo := flag.String("repo", "/repo", "repository")
 	coqroot := flag.String("coq", "/verif/coq", "Coq development (theories, shim)")
-	profile := flag.String("profile", "default", "generator profile: default | core | shadowtail | byteconv | incdec32")
+	profile := flag.String("profile", "default", "generator profile: default | core | noshadow | core-noshadow | incdec32 | catalogue")
+	only := flag.String("only", "", "catalogue: only the items whose id contains this")
 	keep := flag.String("keep", "", "keep the scratch module in this directory")
 	verbose := flag.Bool("v", false, "print every call")
 	par := flag.Int("j", 4, "parallel coqc runs")
@@ -140,10 +145,18 @@ func main() {
 
 	master := rng.New(*seed)
 	var cases []*caseT
+	catalogue := *profile == "catalogue"
+	if catalogue {
+		cases = catalogueCases(mod, *only)
+		*n = 0
+	}
 	var runner strings.Builder
 	runner.WriteString("package main\n\nimport (\n\t\"fmt\"\n")
 	for c := 0; c < *n; c++ {
 		fmt.Fprintf(&runner, "\tp%03d \"gen/g/p%03d\"\n", c, c)
+	}
+	for _, c := range cases {
+		fmt.Fprintf(&runner, "\t%s \"gen/%s\"\n", c.name, c.dir)
 	}
 	runner.WriteString(")\n\nfunc call(id string, f func() string) {\n\tdefer func() {\n\t\tif r := recover(); r != nil {\n\t\t\tfmt.Printf(\"R %s panic\\n\", id)\n\t\t}\n\t}()\n\tfmt.Printf(\"R %s %s\\n\", id, f())\n}\n\nfunc main() {\n")
 	for c := 0; c < *n; c++ {
@@ -154,7 +167,10 @@ func main() {
 		dir := filepath.Join(mod, "g", name)
 		os.MkdirAll(dir, 0o755)
 		os.WriteFile(filepath.Join(dir, "p.go"), []byte(src), 0o644)
-		cases = append(cases, &caseT{name: name, pkg: pkg, src: src, native: map[int]string{}, model: map[int]string{}})
+		cases = append(cases, &caseT{name: name, dir: "g/" + name, pkg: pkg, src: src, native: map[int]string{}, model: map[int]string{}})
+	}
+	for _, cs := range cases {
+		name, pkg := cs.name, cs.pkg
 		for i, cl := range pkg.Calls {
 			var args []string
 			for j, a := range cl.Args {
@@ -164,6 +180,9 @@ func main() {
 			for j, t := range cl.ResT {
 				rs = append(rs, fmt.Sprintf("r%d", j))
 				fs = append(fs, fmtFor(t, fmt.Sprintf("r%d", j)))
+			}
+			if len(fs) == 0 {
+				continue
 			}
 			res := fs[0]
 			if len(fs) == 2 {
@@ -205,7 +224,11 @@ func main() {
 
 	// goose, one package per invocation directory pattern list (one load)
 	out := filepath.Join(root, "out")
-	gcmd := exec.Command(*goose, "-out", out, "-ignore-errors", "./g/...")
+	pat := "./g/..."
+	if catalogue {
+		pat = "./c/..."
+	}
+	gcmd := exec.Command(*goose, "-out", out, "-ignore-errors", pat)
 	gcmd.Dir = mod
 	gcmd.Env = goEnv()
 	var gerr bytes.Buffer
@@ -234,19 +257,48 @@ func main() {
 			defer wg.Done()
 			sem <- struct{}{}
 			defer func() { <-sem }()
-			vfile := filepath.Join(out, "gen", "g", c.name+".v")
-			if _, err := os.Stat(vfile); err != nil {
+			vfile := filepath.Join(out, "gen", c.dir+".v")
+			vtxt, err := os.ReadFile(vfile)
+			if err != nil {
 				c.coqErr = "no output file"
 				return
+			}
+			c.defs = map[string]bool{}
+			for _, m := range defRe.FindAllStringSubmatch(string(vtxt), -1) {
+				c.defs[m[1]] = true
+			}
+			if catalogue {
+				// a rejected declaration is absent from the (partial) output: nothing to evaluate
+				for _, cl := range c.pkg.Calls {
+					if !c.defs[cl.Fn] {
+						return
+					}
+				}
+			}
+			if subs, _ := filepath.Glob(filepath.Join(out, "gen", c.dir, "*.v")); len(subs) > 0 {
+				for _, sv := range subs {
+					exec.Command("coqc", append(coqflags, sv)...).Run()
+				}
 			}
 			cc := exec.Command("coqc", append(coqflags, vfile)...)
 			if o, err := cc.CombinedOutput(); err != nil {
 				c.coqErr = "emitted file does not compile: " + string(o)
+				// a definition that mentions a declaration goose rejected (absent from the
+				// partial output written under -ignore-errors) is rejected with it
+				if catalogue {
+					for _, name := range c.decls {
+						if !c.defs[name] && regexp.MustCompile(`[^A-Za-z0-9_"]`+regexp.QuoteMeta(name)+`[^A-Za-z0-9_"]`).MatchString(string(vtxt)) {
+							c.defs = nil
+							c.coqErr = "depends on the rejected declaration " + name
+							break
+						}
+					}
+				}
 				return
 			}
 			var ev strings.Builder
-			ev.WriteString("From Coq Require Import ZArith String.\nFrom GV Require Import Lang.GlSyntax Lang.GlSem Lang.Show.\n")
-			fmt.Fprintf(&ev, "From Goose Require Import gen.g.%s.\n", c.name)
+			ev.WriteString("From Coq Require Import ZArith String.\nFrom GV Require Import Lang.GlSyntax Lang.GlSem Lang.Show.\nSet Printing Width 100000.\n")
+			fmt.Fprintf(&ev, "From Goose Require Import gen.%s.\n", strings.ReplaceAll(c.dir, "/", "."))
 			for i, cl := range c.pkg.Calls {
 				e := fmt.Sprintf("(Val %s)", cl.Fn)
 				for j, a := range cl.Args {
@@ -280,12 +332,27 @@ func main() {
 		// errors goose reported for this package
 		var perr []string
 		for _, l := range strings.Split(gtext, "\n") {
-			if strings.Contains(l, "/g/"+c.name+"/") || strings.Contains(l, "g/"+c.name+"]") {
+			if strings.Contains(l, "/"+c.dir+"/") {
 				perr = append(perr, l)
 			}
 		}
 		fmt.Fprintf(w, "X %d %s\n", gstatus, hex.EncodeToString([]byte(strings.Join(perr, "\n"))))
-		if len(perr) > 0 {
+		called := true
+		for _, cl := range c.pkg.Calls {
+			if c.defs != nil && !c.defs[cl.Fn] {
+				called = false
+			}
+		}
+		if catalogue && (c.defs == nil || !called) {
+			// rejected: the called function is not in the output; there must be an error for it
+			rejected++
+			if len(perr) == 0 && c.coqErr != "no output file" {
+				mism++
+				fmt.Fprintf(w, "MISMATCH case=%d pkg=%s kind=declaration-dropped-without-error\n", ci, c.name)
+			} else {
+				fmt.Fprintf(w, "V %s rejected\n", c.name)
+			}
+		} else if len(perr) > 0 && !catalogue {
 			rejected++
 			mism++
 			fmt.Fprintf(w, "MISMATCH case=%d pkg=%s kind=rejected-subset-program msg=%s\n", ci, c.name, hex.EncodeToString([]byte(strings.Join(perr, "\n"))))
@@ -294,6 +361,9 @@ func main() {
 			fmt.Fprintf(w, "MISMATCH case=%d pkg=%s kind=output-unusable msg=%s\n", ci, c.name, hex.EncodeToString([]byte(c.coqErr)))
 		} else {
 			accepted++
+			if catalogue {
+				fmt.Fprintf(w, "V %s translated\n", c.name)
+			}
 			for i, cl := range c.pkg.Calls {
 				calls++
 				nat, mod := c.native[i], c.model[i]
